@@ -14,6 +14,21 @@ TABLE = {
         "assumptions": ["builders abstracted at call sites as uninterpreted functions of all their arguments (their own bodies are under contract in C06)",
                         "source.replace_leaves(m) abstracted as the function replace_leaves(source, m) the per-class obligations define"],
     },
+    "C16": {
+        "mods": ["contracts.glue"], "keys": ["SQLiteModel._emit_right_join_as_left_join"],
+        "explanation": ("hybrid: PROVED (pyvc) -- the SQLite right-join emulation hands the generic translator a LEFT join whose sources AND join keys are swapped, with "
+                        "left_is_first=False, produced columns unchanged and the caller's node untouched; BOUNDED -- every backend's join result against a reference join and "
+                        "a hand-written native SQL join over the enumerated scope (incl. the full-join emulation, pandas merge, polars join, which are not under contract)"),
+        "assumptions": ["copy.copy is a shallow copy; DBModel.natural_join_to_near_sql is a function of the node it receives"],
+    },
+    "C19": {
+        "mods": ["contracts.glue"], "keys": ["PandasModel.clean_copy", "PandasModel._table_step"],
+        "explanation": ("hybrid: PROVED (pyvc) -- every returning path of PandasModelBase._table_step (the only place a caller's frame enters the Pandas executor) returns "
+                        "clean_copy(df.loc[:, declared columns]) and clean_copy returns reset_index(drop=True, inplace=False), i.e. a new frame under the assumed pandas contract; "
+                        "BOUNDED -- deep snapshots of caller frames around eval/transform/ex/>> on Pandas and Polars, repeatability"),
+        "assumptions": ["pandas: reset_index(drop=True, inplace=False) returns a new frame; df.loc[:, cols] is a function of (df, cols)",
+                        "the other _X_step functions write only to frames obtained from _eval_value_source (not under contract; bounded run only)"],
+    },
 }
 
 
